@@ -2,7 +2,8 @@
 from ..propbase import deductive, lines_universe, gen_universe, STD_TRUST
 from ..report import Report
 
-FUNCS = ["markdown_it.rules_block.hr.hr", "markdown_it.rules_block.heading.heading", "markdown_it.rules_block.lheading.lheading", "markdown_it.rules_block.fence.fence", "markdown_it.rules_block.code.code", "markdown_it.rules_block.html_block.html_block"]
+FUNCS = ["markdown_it.rules_block.hr.hr", "markdown_it.rules_block.heading.heading", "markdown_it.rules_block.lheading.lheading", "markdown_it.rules_block.fence.fence", "markdown_it.rules_block.code.code", "markdown_it.rules_block.html_block.html_block",
+         "markdown_it.rules_block.list.skipOrderedListMarker", "markdown_it.rules_block.list.skipBulletListMarker"]
 
 
 def run(tier, seed):
